@@ -125,7 +125,9 @@ class C19(Prop):
                 yield case
                 continue
             elif r0 < 0.4:
-                case["lines"].insert(-1, rng.choice(["shadow plain", "shadow mapk 5 5 5"]))
+                case["lines"].insert(-1, rng.choice(["shadow plain", "shadow mapk 5 5 5", "shadow share 2", "shadow share 1", "shadow share 7"]))
+                if "share" in case["lines"][-2] and rng.random() < 0.6:
+                    case["lines"] += ["shadow share 2", f"run {rng.choice([1, 2, 7])}", "hist 2", "stats"]
             elif r0 < 0.5:
                 # an on_cascade_complete observer (returns / raises: then run() raises after the result was shown)
                 case["lines"].insert(1, "cobserver " + rng.choice(["ok", "raise", "raise"]))
@@ -198,7 +200,7 @@ class C19(Prop):
                     else:
                         cp, pr, eh, req, amp = self._rand_stage(rng)
                         nm = rng.choice(names + [f"s{rng.randint(0, 6)}", "dup", "EMPTY", "S0"])
-                        idx = rng.randint(0, len(names))
+                        idx = rng.choice([rng.randint(0, len(names)), rng.randint(0, len(names)), -1, -2, -9, len(names) + 3])
                         lines.append(f"insert {idx} {cp} {pr} {eh} {show_bool(req)} {amp} {nm}")
                         names.insert(idx, nm)
                 lines.append(f"run {rng.choice([0, 1, 1, 2, 7])}")
@@ -238,6 +240,14 @@ class C19(Prop):
                                            f"setgate a {g2}", "run 1", "run 2", f"set halt {show_bool(not halt)}", "setamp b 4",
                                            "run 1", "set max 1/2", "run 1", "stats"],
                                  "note": "exhaustive: gate / factor / configuration re-assigned on the live objects between runs"})
+        for halt in (True, False):
+            for g1 in ("odd", "lt50", "pass", "reject"):
+                for g2 in ("odd", "lt50", "raise"):
+                    for pr in ("ok", "raise"):
+                        hist.append({"lines": [f"cfg {show_bool(halt)} 4", f"stage {g1} {pr} ok 1 2 a", f"stage {g2} ok none 0 2 b", "shadow share 2",
+                                               "run 1", "shadow share 1", "run 2", "shadow share 70", "run 1", "insert -1 odd ok none 1 2 c",
+                                               "shadow share 2", "run 1", "stats"],
+                                     "note": "exhaustive: a second cascade built from the same stage objects runs in between"})
         hist += [{"lines": [f"mapk {h} 1000 2 3 4", "run 0", f"setgate {nm} {g}", "run 0", "stats"],
                   "note": "a gate installed on a tier of the live preset"}
                  for h in "01" for nm in ("MAPKKK", "MAPKK", "MAPK") for g in ("reject", "freject", "raise", "none", "pass")]
@@ -691,7 +701,22 @@ class C19(Prop):
                     obs.append("ok")
                 elif t[0] == "shadow":
                     # a second cascade object alive next to the one under test must not influence it
-                    if len(t) >= 5 and t[1] == "mapk":
+                    if len(t) == 3 and t[1] == "share":
+                        # a second cascade built from the SAME stage objects (opposite halt setting) and run once on another
+                        # signal: what it does with them must not leak into the cascade under test
+                        ensure()
+                        sh = m.Cascade("shared", halt_on_failure=not casc.halt_on_failure, silent=True)
+                        for d_ in cur:
+                            sh.add_stage(d_["stage"])
+                        saved = (log[:], seen[:], cshown[:], depth[0])
+                        depth[0] = 1            # `nest` processors do not re-enter from here
+                        try:
+                            sh.run(int(t[2]))
+                        except Exception:
+                            pass
+                        log[:], seen[:], cshown[:], depth[0] = saved[0], saved[1], saved[2], saved[3]
+                        shadows.append(sh)
+                    elif len(t) >= 5 and t[1] == "mapk":
                         shadows.append(m.MAPKCascade(tier1_amplification=float(Fraction(t[2])),
                                                      tier2_amplification=float(Fraction(t[3])),
                                                      tier3_amplification=float(Fraction(t[4])), silent=True))
@@ -727,7 +752,8 @@ class C19(Prop):
                 elif t[0] == "stats" and len(t) == 1:
                     ensure()
                     g = casc.get_statistics()
-                    obs.append(f"{g['stages_count']} {g['runs_count']} {g['successful_runs']} {g['failed_runs']}")
+                    obs.append(f"{g['stages_count']} {g['runs_count']} {g['successful_runs']} {g['failed_runs']} "
+                               f"[{','.join(tok_of(n) for n in g['stage_names'])}]")
                 elif t[0] == "stage" and len(t) in (6, 7):
                     ensure()
                     name = nm_of(t[6]) if len(t) == 7 else f"s{made[0]}"
@@ -738,9 +764,8 @@ class C19(Prop):
                 elif t[0] == "insert" and len(t) == 8:
                     ensure()
                     d, st = mk(t[2], t[3], t[4], t[5] == "1", float(Fraction(t[6])), nm_of(t[7]))
-                    idx = min(int(t[1]), len(cur))
-                    casc.insert_stage(idx, st)
-                    cur.insert(idx, d)
+                    casc.insert_stage(int(t[1]), st)        # any int: negative positions count from the end, as list.insert does
+                    cur.insert(int(t[1]), d)
                     obs.append("ok")
                 elif t[0] == "remove" and len(t) == 2:
                     ensure()
@@ -925,7 +950,7 @@ class C19(Prop):
                 beh.append((t[1], t[2], t[3], t[4] == "1", Fraction(t[5]), made, t[6] if len(t) == 7 else f"s{made}"))
                 made += 1
             elif t[0] == "insert" and len(t) == 8:
-                beh.insert(min(int(t[1]), len(beh)), (t[2], t[3], t[4], t[5] == "1", Fraction(t[6]), made, t[7]))
+                beh.insert(int(t[1]), (t[2], t[3], t[4], t[5] == "1", Fraction(t[6]), made, t[7]))
                 made += 1
             elif t[0] == "remove" and len(t) == 2:
                 k = next((k for k, b in enumerate(beh) if b[6] == t[1]), None)
